@@ -146,6 +146,13 @@ class Skel:
             return "for %s in %s do %s" % (kids(var[0])[0]["name"], self.sk(kids(kids(rng[0])[0])[0]), self.sk(inner[-1]))
         if k == "CXXDefaultArgExpr":
             return "default"
+        if k == "ContinueStmt":
+            return "continue"
+        if k == "ForStmt":
+            raw = n.get("inner") or []
+            if len(raw) != 5 or raw[1]:
+                raise ExtractError("for statement shape not understood")
+            return "for (%s; %s; %s) do %s" % (self.sk(raw[0]), self.sk(raw[2]), self.sk(raw[3]), self.sk(raw[4]))
         raise ExtractError("AST node kind %s not understood" % k)
 
 
@@ -208,7 +215,7 @@ class Extractor:
         self.enums = {}
 
     def add_body(self, cname, m):
-        if not (m["name"] == "configureAttribute" or m["name"] in HANDLERS or m["name"] == "configureBool"):
+        if not (m["name"] == "configureAttribute" or m["name"] in HANDLERS or m["name"] in ("configureBool", "isResultValid")):
             return
         key = (cname, m["name"], self.overload_kind(m))
         old = self.bodies.get(key)
@@ -648,6 +655,50 @@ class Extractor:
         if not re.search(r"bool isVirtual\(\) const \{ return \(type == NodeType::Virtual\); \}", hdr):
             raise ExtractError("BuildNode::isVirtual: shape not understood")
 
+    # ------------------------------------------------------------------ ExternalCommand::isResultValid
+    def result_valid(self, tools):
+        """The decision chain of `ExternalCommand::isResultValid` (which stored command results are still valid on a scan):
+        the checks before the loop, the per-output steps in order - in particular whether the `is-mutated` branch CONTINUES with
+        the next output or RETURNS - and the value returned after the loop.  No command class of a built-in tool between its
+        command class and ExternalCommand may override it with a body of another shape (MkdirCommand / SymlinkCommand /
+        StaleFileRemovalCommand have their own rule and are listed)."""
+        b = self.bodies.get(("ExternalCommand", "isResultValid", ""))
+        if b is None:
+            raise ExtractError("ExternalCommand::isResultValid not found")
+        ps = [p.get("name") for p in kids(b) if p.get("kind") == "ParmVarDecl"]
+        if ps != ["system", "value"]:
+            raise ExtractError("isResultValid: parameter names %s" % ps)
+        stmts = kids([x for x in kids(b) if x.get("kind") == "CompoundStmt"][0])
+        sk = " ;; ".join(self.S.sk(x) for x in stmts)
+        prior = r"param:value\.getNthOutputInfo\(var:i\)"
+        pre = r"if this\.alwaysOutOfDate then return false ;; if \(!param:value\.isSuccessfulCommand\(\)\) then return false ;; "
+        head = (r"for \(decl i:unsigned int = 0; decl e:unsigned int = this\.outputs\.size\(\); \(var:i != var:e\); \(\+\+var:i\)\) do \{ "
+                r"decl node:(?:[\w:]*::)?BuildNode \* = op\[\]\(this\.outputs, var:i\) ;; if var:node\.isVirtual\(\) then continue ;; "
+                r"decl info:(?:[\w:]*::)?FileInfo = var:node\.getFileInfo\(param:system\.getFileSystem\(\)\) ;; ")
+        # the `is-mutated` branch as it stands, and the early-return spelling of it (with or without a hoisted `priorInfo`)
+        mut_continue = r"if var:node\.isMutated\(\) then \{ if \(%s\.isMissing\(\) != var:info\.isMissing\(\)\) then return false ;; continue \} ;; " % prior
+        hoist = r"decl priorInfo:const (?:[\w:]*::)?FileInfo & = %s ;; " % prior
+        mut_return = r"if var:node\.isMutated\(\) then return \((?:%s|var:priorInfo)\.isMissing\(\) == var:info\.isMissing\(\)\) ;; " % prior
+        cmp_ = r"if op!=\((?:%s|var:priorInfo), var:info\) then return false \} ;; return true" % prior
+        if re.fullmatch(pre + head + mut_continue + cmp_, sk):
+            mut = ".mutatedExistence true"
+        elif re.fullmatch(pre + head + "(?:%s)?" % hoist + mut_return + cmp_, sk):
+            mut = ".mutatedExistence false"
+        else:
+            raise ExtractError("ExternalCommand::isResultValid: body not understood: %s" % sk)
+        # which tools run this function: the command class chain up to ExternalCommand must not override it
+        own, other = [], []
+        for t, c in tools:
+            ch = self.chain(c)
+            if "ExternalCommand" not in ch:
+                other.append(t)
+                continue
+            over = [x for x in ch[:ch.index("ExternalCommand")] if any(
+                m.get("kind") == "CXXMethodDecl" and m.get("name") == "isResultValid" for m in kids(self.records[x]))]
+            (other if over else own).append(t)
+        rng = b.get("range", {})
+        return mut, own, other, (rng.get("begin", {}).get("line"), rng.get("end", {}).get("line"))
+
     # ------------------------------------------------------------------ tools
     def tools(self):
         src = strip_comments(read("lib/BuildSystem/BuildSystem.cpp"))
@@ -790,6 +841,18 @@ def run():
         out.append("")
         tnames.append(ident)
     out.append("def tables : List ToolTable := [%s]" % ", ".join(tnames))
+    out.append("")
+    mut, own, other, _ = x.result_valid(tools)
+    out.append("/-- `ExternalCommand::isResultValid` (lib/BuildSystem/ExternalCommand.cpp): the checks before the per-output loop, the steps")
+    out.append("of one iteration in order, the value returned after the loop -/")
+    out.append("def resultValid : ResultValidChain :=")
+    out.append("  { before := [.alwaysOutOfDate, .notSuccessfulCommand],")
+    out.append("    perOutput := [.skipVirtual, %s, .compareInfo]," % mut)
+    out.append("    after := true }")
+    out.append("")
+    out.append("/-- tools whose commands run `ExternalCommand::isResultValid` unchanged, and the tools with a rule of their own -/")
+    out.append("def resultValidTools : List String := [%s]" % ", ".join(lean_str(t) for t in own))
+    out.append("def ownValidityRuleTools : List String := [%s]" % ", ".join(lean_str(t) for t in other))
     out.append("")
     out.append("end LLBuild.Generated.BSAttrs")
     sources = [(rel, read(rel)) for rel in TUS] + [
